@@ -801,3 +801,32 @@ mod tests {
         }
     }
 }
+
+#[cfg(test)]
+mod move_tests {
+    use super::*;
+
+    /// the R3 sign rule used by the harness: (e,d,z) is allowed unless e == z != d
+    #[test]
+    fn braid_r3_sign_patterns_preserve_jones() {
+        for e in [1, -1] {
+            for dl in [1, -1] {
+                for zt in [1, -1] {
+                    let w = [e * 1, dl * 2, zt * 1, 1, 2];
+                    let v = [zt * 2, dl * 1, e * 2, 1, 2];
+                    let (a, b) = (braid_closure(3, &w).unwrap(), braid_closure(3, &v).unwrap());
+                    let allowed = !(e == zt && e != dl);
+                    if allowed {
+                        assert_eq!(a.jones(), b.jones(), "pattern {e},{dl},{zt}");
+                        let (ka, kb) = (khovanov::<Z>(&a, &z(0), &z(0), None), khovanov::<Z>(&b, &z(0), &z(0), None));
+                        let (ka, kb) = (ka.bigraded.unwrap(), kb.bigraded.unwrap());
+                        assert_eq!(ka.keys().collect::<Vec<_>>(), kb.keys().collect::<Vec<_>>());
+                        for (k, m) in &ka {
+                            assert!(kb[k].same(m.rank, &m.tors), "pattern {e},{dl},{zt} at {k:?}");
+                        }
+                    }
+                }
+            }
+        }
+    }
+}
